@@ -47,9 +47,9 @@ type c04Sched struct {
 	tsOrder []int
 }
 
-func (s *c04Sched) ChunkSize() int   { return s.chunk }
-func (s *c04Sched) Enter(fn string)  {}
-func (s *c04Sched) Exit(fn string)   {}
+func (s *c04Sched) ChunkSize() int    { return s.chunk }
+func (s *c04Sched) Enter(fn string)   {}
+func (s *c04Sched) Exit(fn string)    {}
 func (s *c04Sched) Fail(string) error { return nil }
 
 func (s *c04Sched) actorOf(label string) int {
@@ -223,15 +223,15 @@ func (env *c04BEnv) Close() {
 }
 
 type c04BResult struct {
-	Events     []string
-	G1Code     int
-	G2Code     int
-	Blocked    int
-	Overlap    bool
-	Present    bool
-	Decisions  int
-	Choices    []int
-	Branching  []int
+	Events    []string
+	G1Code    int
+	G2Code    int
+	Blocked   int
+	Overlap   bool
+	Present   bool
+	Decisions int
+	Choices   []int
+	Branching []int
 }
 
 // run executes one schedule. choose(n) picks among n enabled actors (n is
@@ -434,7 +434,6 @@ func c04BFail(t vkT, env *c04BEnv, res *c04BResult, msg string) {
 		msg, env.sc, env.sc.G1, env.sc.G2, strings.Join(res.Events, "\n   "), res.Choices, res.G1Code, res.G2Code, env.log.String())
 }
 
-
 // c04MaybeReplay re-runs the single schedule stored in $VERIF_REPLAY (written
 // by c04BFail) instead of the generated ones.
 func c04MaybeReplay(t *testing.T) bool {
@@ -527,6 +526,7 @@ func TestVerifC04Exhaustive(t *testing.T) {
 			continue
 		}
 		env := c04NewBEnv(t, sc)
+		t.Cleanup(env.Close)
 		n := 0
 		// odometer over the choice vector
 		var prefix []int
@@ -559,7 +559,6 @@ func TestVerifC04Exhaustive(t *testing.T) {
 				t.Fatalf("VERIF-INFRA: schedule enumeration of %v does not terminate", sc)
 			}
 		}
-		env.Close()
 		stats.Info("exhaustive:"+sc.String(), n)
 		total += n
 	}
